@@ -21,7 +21,11 @@ pub struct AnData {
     pub size: u64,
     pub depth: u64,
     pub cst: Option<u32>,
+    /// bounded height, joined with max: grows along cycles up to the cap
+    pub height: u64,
 }
+
+pub const HEIGHT_CAP: u64 = 6;
 
 #[derive(Clone, Debug)]
 pub struct SimAn {
@@ -59,7 +63,8 @@ pub fn make_data<L: SimLang>(eg: &EGraph<L, SimAn>, n: &L) -> AnData {
         "let" if L::NAME == "LA" => c(0),
         _ => None,
     };
-    AnData { size, depth, cst }
+    let height = HEIGHT_CAP.min(1 + kids.iter().map(|d| d.height).max().unwrap_or(0));
+    AnData { size, depth, cst, height }
 }
 
 pub fn merge_data(l: AnData, r: AnData) -> AnData {
@@ -77,7 +82,7 @@ pub fn merge_data(l: AnData, r: AnData) -> AnData {
         (Some(a), None) | (None, Some(a)) => Some(a),
         (None, None) => None,
     };
-    AnData { size: l.size.min(r.size), depth: l.depth.min(r.depth), cst }
+    AnData { size: l.size.min(r.size), depth: l.depth.min(r.depth), cst, height: l.height.max(r.height) }
 }
 
 impl<L: SimLang> Analysis<L> for SimAn {
